@@ -177,7 +177,7 @@ func convertedSelectorPeerAuthentications(rootNamespace string, configs []*secur
 				// Strict mesh or namespace policy
 				foundPermissive := false
 				for _, portMtls := range workloadSpec.PortLevelMtls {
-					if isMtlsModePermissive(portMtls) {
+					if isMtlsModePermissive(portMtls) || isMtlsModeDisable(portMtls) {
 						foundPermissive = true
 						break
 					}
